@@ -440,6 +440,37 @@ def install(eng):
     for nm in ('set', 'frozenset', 'chr', 'repr', 'str', 'hex', 'ord'):
         opaque_fn(nm)
 
+    def _set_of_bytes(eng, st, args, kw, node):
+        """set(b) of a bytes value: concrete bytes give the concrete set; a symbolic byte string gives a set known through its
+        membership predicate (t is in it iff some position holds t) that remembers the string it was made from.  Any other
+        argument: untracked, as before."""
+        from .engine import AbsSet, SetVal
+        from .kinds import KByte as _KByte
+        if len(args) == 1 and isinstance(args[0], bytes):
+            return one(st, SetVal(sorted(set(args[0]))))
+        if len(args) == 1 and isinstance(args[0], View) and isinstance(args[0].ekind, _KByte):
+            v = args[0]
+            def mem(t, _v=v):
+                k = z3.Int(uid('sk'))
+                return z3.Exists([k], z3.And(k >= 0, k < to_int(_v.length), to_int(_v.get(k)) == to_int(t)))
+            a = AbsSet(mem, simp(num_cmp('==', v.length, 0)))
+            a._src = v
+            return one(st, a)
+        return one(st, Opaque())
+    B['set'] = Fn(_set_of_bytes, 'set')
+
+    @method('issubset')
+    def _issubset(eng, st, args, kw, node):
+        from .engine import AbsSet
+        recv, other = args
+        src = getattr(recv, '_src', None)
+        if not isinstance(recv, AbsSet) or src is None:
+            raise Unsupported('issubset on a set that was not made from a byte string')
+        k = z3.Int(uid('ss'))
+        el = src.get(k)
+        inn = to_bool_term(simp(eng.contains(other, el)))
+        return one(st, z3.ForAll([k], z3.Implies(z3.And(k >= 0, k < to_int(src.length)), inn), patterns=[to_int(el)] if is_z3(el) and not z3.is_var(el) else []))
+
     @reg('sorted')
     def _sorted(eng, st, args, kw, node):
         v = args[0]
